@@ -49,3 +49,11 @@ Theorem C02_heap_backend_pop_refines :
     match f with [] => hq_pop h = None | (k, b) :: f' => exists h', hq_pop h = Some (k, b, h') /\ R h' f' end.
 Proof. exact hq_pop_refines. Qed.
 Print Assumptions C02_heap_backend_pop_refines.
+
+(** (A) the tie to /repo's current source: every function this property's models were transcribed from has, in the
+    tree this run is checking, the normalised source it had when the models were validated (hashes regenerated from
+    /repo into gen/Generated.v on every run; pins in gen/SourcePins.v).  A change to one of them invalidates the
+    transcription until it is re-validated. *)
+From UsimGen Require SourcePins Pin_C02.
+Theorem C02_modelled_source_unchanged : forallb SourcePins.pin_ok Pin_C02.pins = true.
+Proof. exact Pin_C02.src_unchanged. Qed.
